@@ -20,6 +20,8 @@ KERNELS = {
                         ("src/primaite/game/agent/observations/file_system_observations.py", "FileObservation", "_categorise_num_access", "Z")]},
     "episode": {"gen": "Gen/GenEpisode.v", "eq": "Proofs/GenEqEpisode.vo", "functions": ["PrimaiteGame.calculate_truncated"],
                 "sources": [("src/primaite/game/game.py", "PrimaiteGame", "calculate_truncated", "bool")]},
+    "link": {"gen": "Gen/GenLink.v", "eq": "Proofs/GenEqLink.vo", "functions": ["Link.can_transmit_frame"],
+             "sources": [("src/primaite/simulator/network/hardware/base.py", "Link", "can_transmit_frame", "bool", {"is_up": "bool"})]},
     "acl": {"gen": "Gen/GenAcl.v", "eq": "Proofs/GenEqAcl.vo", "functions": ["ip_matches_masked_range"],
             "sources": [("src/primaite/simulator/network/hardware/nodes/network/router.py", None, "ip_matches_masked_range", "bool")]},
 }
@@ -43,9 +45,12 @@ def find(tree, cls, fn):
 
 
 class Tr:
-    def __init__(self, fn, rtype):
+    def __init__(self, fn, rtype, attr_types=None):
         self.fn, self.rtype = fn, rtype
-        self.params = [a.arg for a in fn.args.args if a.arg != "self"]
+        self.attr_types = attr_types or {}
+        self.obj_params = set()
+        self.all_params = [a.arg for a in fn.args.args if a.arg != "self"]
+        self.params = list(self.all_params)
         if fn.args.vararg or fn.args.kwarg or fn.args.kwonlyargs:
             raise Refuse("unsupported parameter kinds")
         self.attrs = []          # self.<attr> in order of first use
@@ -66,7 +71,14 @@ class Tr:
         if isinstance(e, ast.Attribute) and isinstance(e.value, ast.Name) and e.value.id == "self":
             if e.attr not in self.attrs:
                 self.attrs.append(e.attr)
-            return e.attr, "Z"
+            return e.attr, self.attr_types.get(e.attr, "Z")
+        if isinstance(e, ast.Attribute) and isinstance(e.value, ast.Name) and e.value.id in self.all_params:
+            # an attribute of an object parameter (frame.size_Mbits): the object parameter is replaced by the attributes read
+            nm = "%s__%s" % (e.value.id, e.attr)
+            self.obj_params.add(e.value.id)
+            if nm not in self.attrs:
+                self.attrs.append(nm)
+            return nm, self.attr_types.get(nm, "Z")
         if isinstance(e, ast.Attribute) and isinstance(e.value, ast.Attribute) and isinstance(e.value.value, ast.Name) and e.value.value.id == "self":
             nm = "%s_%s" % (e.value.attr, e.attr)           # self.options.max_episode_length
             if nm not in self.attrs:
@@ -171,18 +183,21 @@ class Tr:
     def run(self, name):
         self.ltype = {}
         body = self.block(self.fn.body, None)
-        args = " ".join(self.attrs + self.params)
-        return "Definition %s (%s : Z) : %s :=\n  %s.\n" % (name, args, self.rtype, body), self.attrs, self.params
+        self.params = [q for q in self.params if q not in self.obj_params]
+        binders = " ".join("(%s : %s)" % (a, self.attr_types.get(a, "Z")) for a in self.attrs + self.params)
+        return "Definition %s %s : %s :=\n  %s.\n" % (name, binders, self.rtype, body), self.attrs, self.params
 
 
 def translate(group, repo):
     k = KERNELS[group]
     out = ["(* GENERATED by translator/py2coq.py from the current source of %s -- do not edit; not committed. *)" % repo,
            "From Coq Require Import ZArith Bool.", "Open Scope Z_scope.", ""]
-    for path, cls, fn, rtype in k["sources"]:
+    for src_entry in k["sources"]:
+        path, cls, fn, rtype = src_entry[:4]
+        attr_types = src_entry[4] if len(src_entry) > 4 else None
         src = open(os.path.join(repo, path)).read()
         f = find(ast.parse(src), cls, fn)
-        text, attrs, params = Tr(f, rtype).run(fn.lstrip("_"))
+        text, attrs, params = Tr(f, rtype, attr_types).run(fn.lstrip("_"))
         out.append("(* %s%s.%s  -- parameters: %s *)" % (path, "::" + cls if cls else "", fn, ", ".join(attrs + params)))
         out.append(text)
     return "\n".join(out)
